@@ -109,7 +109,7 @@ struct World
 	}
 
 	// complete the Logon exchange with the scripted peer (returns false if the session did not reach continuous)
-	bool peer_logon(const sn::Fields& extra = {})
+	bool peer_logon(const sn::Flds& extra = {})
 	{
 		if (initiator)
 		{
